@@ -61,6 +61,10 @@ def group_runs(g, tier):
             W('ovl(ovl(mem,mem),mem)', 'random', names='multi', walks=8 if q else 300, length=40, split=True),
             W('ovl(mem,mem)', 'edges', lts='deep', frac=0.08 if q else 1.0, split=True),
             W('ovl(mem,mem,mem)', 'random', lts='deep', walks=15 if q else 1000, length=40, split=True),
+            # many different initial layer contents (shadowed files, directories split across layers, type conflicts), short walks
+            W('ovl(mem,mem)', 'random', lts='deep', walks=150 if q else 3000, length=3, split=True),
+            W('ovl(mem,mem,mem)', 'random', lts='deep', names='prefix', walks=100 if q else 3000, length=3, split=True),
+            W('ovl(mem,mem,mem,mem)', 'random', lts='small', walks=60 if q else 2000, length=3, split=True),
         ]
         if not q:
             runs += [W('ovl(mem,mem,mem,mem)', 'random', walks=500, length=40, split=True),
